@@ -167,6 +167,9 @@ pub struct Interp {
     pub trace: Vec<String>,
     pub step_no: usize,
     pub written_ranges: Vec<(NodeId, u32, u32)>,
+    /// signatures of open known findings that are tolerated in place
+    pub tolerate: Vec<String>,
+    pub known_hits: Vec<String>,
 }
 
 pub fn ek(e: &E) -> String {
@@ -221,6 +224,8 @@ impl Interp {
             trace: vec![],
             step_no: 0,
             written_ranges: vec![],
+            tolerate: vec![],
+            known_hits: vec![],
         };
         let pv = it.pvols.clone();
         for p in &pv {
